@@ -75,6 +75,10 @@ def main(argv=None) -> int:
         try:
             if a.replay:
                 return int(mod.replay(a.replay))
+            import shutil
+            from .common import REPLAYS
+
+            shutil.rmtree(REPLAYS / a.prop, ignore_errors=True)  # replay files of earlier runs are stale
             return int(mod.run(a.tier))
         finally:
             if not a.keep_work:
